@@ -13,10 +13,10 @@ CHECKS = {
     # id: (category, technique, level text, design ref, note)
     "C01": (
         "exploration",
-        "seeded simulated histories (writer/batch/reader/operator actors over SimDB, batches committed or aborted at any step, crash-reopen) refined against a byte-string map",
+        "seeded simulated histories (writer/batch/reader/operator actors over SimDB, batches committed or aborted at any step, crash-reopen; failing writes and deletes of every exception family on direct operations and on batch commits) refined against a byte-string map",
         "Seeded search over operation histories and schedules of client actors on the real HexaryTrie; every lookup is compared with a dict model and no lookup may raise. Sampling: a clean batch is evidence, not proof.",
         "DESIGN.md §4 C01",
-        "keccak/rlp trusted; keys <= 33 bytes, <= 40 keys, <= 80 events per run",
+        "keccak/rlp trusted; after a storage failure the handle must still be a map and serve later calls (a pruning trie whose commit failed after buffered deletes had reached the store is given up: nothing is promised there)",
     ),
     "C02": (
         "exploration",
@@ -34,21 +34,21 @@ CHECKS = {
     ),
     "C04": (
         "fault_enumeration",
-        "deterministic simulation: several non-pruning handles interleaved on one SimDB, ops interposed at db accesses, write failure (applied / not applied) enumerated at every write position of sampled ops and commits, crash-reopen; append-only + content-addressed monitors on the storage seam",
+        "deterministic simulation: several non-pruning handles interleaved on one SimDB, ops interposed at db accesses, write failure (applied / not applied) enumerated at every write position of sampled ops and commits, seeded I/O errors on reads (Exception / OSError / BaseException families) inside direct and batched operations, crash-reopen, two at_root views of one root at once, writes through handles of ended batches; append-only + content-addressed monitors on the storage seam",
         "Within seeded histories every write position of each sampled operation and batch commit is failed once with the write applied and once not applied (linear replayable traces); monitors on the storage seam watch every mutation; every root any handle ever held is re-read in full from a fresh handle and from at_root.",
         "DESIGN.md §4 C04",
-        "fault positions are enumerated per sampled operation, histories are sampled; storage faults are failed writes only (no torn values: the property promises nothing about them)",
+        "fault positions are enumerated per sampled operation, histories are sampled; storage faults are failed writes and I/O errors on reads that the client catches (no torn values: the property promises nothing about them)",
     ),
     "C05": (
         "fault_enumeration",
-        "deterministic simulation: exception injected at every position of each sampled squash_changes batch (Exception, BaseException, uncaught library exception), commit write failed at every position, twin world that never opened the batch",
+        "deterministic simulation: exception injected at every position of each sampled squash_changes batch (Exception, BaseException, uncaught library exception), commit write failed at every position, twin world that never opened the batch; the batch handle's ref_count asked and its root rewound in mid-block, the outer trie written while the block is open, commit while the root node is unreadable",
         "For each sampled batch of k operations the block is left by an exception after every position 0..k in three flavours and, for non-pruning tries, every commit write is failed (applied / not applied); afterwards root, earlier db entries and ref counts equal the pre-block snapshot and a seeded suffix behaves exactly as in a twin world without the batch. Normal exit: canonical root, needed nodes present, nothing removed, no intermediate node leaked.",
         "DESIGN.md §4 C05",
         "crash points are enumerated per sampled batch; prior histories and batches are sampled",
     ),
     "C06": (
         "exploration",
-        "seeded simulated histories on a pruning handle (direct ops, committed/aborted batches, no-op updates, restart with regenerated counts, lru-cache knob) with exactness oracle after every outer event",
+        "seeded simulated histories on a pruning handle (direct ops, committed/aborted batches, no-op updates, restart with regenerated or caller-kept counts, lru-cache knob, first write of a direct operation refused, a bystander pruning trie and third-party non-pruning batches spanning this trie's batches) with exactness oracle after every outer event",
         "After every outer event set(db) equals the hashed nodes of an independently built canonical trie, bytes equal, non-zero ref_count equals reference multiplicity equals regenerate_ref_count().",
         "DESIGN.md §4 C06",
         "pruning trie owns an initially empty db (as the class requires)",
@@ -69,42 +69,42 @@ CHECKS = {
     ),
     "C11": (
         "exploration",
-        "simulated sync session: two fog replicas fed the same peer responses in scheduler-chosen different orders with duplicated, early, lost-and-retried and malformed responses and serialize/deserialize restarts; set-of-prefixes model with brute-force nearest queries",
+        "simulated sync session: two fog replicas fed the same peer responses in scheduler-chosen different orders with duplicated, early, lost-and-retried and malformed responses (duplicate / nested segments, unknown prefixes, elements that are no nibbles) and serialize/deserialize restarts, segment chains of up to 2500 nibbles; set-of-prefixes model with brute-force nearest queries",
         "Seeded search over response streams and delivery orders: each replica equals the set model after each delivery, rejected deliveries leave it unchanged, earlier fog objects never change, replicas converge at quiescence, nearest queries agree with brute force.",
         "DESIGN.md §4 C11",
         "unexplored set observed through the public API only (nearest_right enumeration)",
     ),
     "C12": (
         "exploration",
-        "seeded simulated histories on BinaryTrie over SimDB with failed writes, withheld nodes and reopen at earlier roots; prefix-free map model + independent canonical binary root",
+        "seeded simulated histories on BinaryTrie over SimDB with failed writes, withheld nodes, lost writes, reopen / root_hash / root_node roll-back to earlier roots, other clients' trie objects on the same and on their own stores; prefix-free map model + independent canonical binary root",
         "Seeded search over histories and storage faults: get/exists equal a prefix-free map model, conflicts are refused with NodeOverrideError, any raising call changes nothing, root equals an independently computed canonical root, all earlier roots read back.",
         "DESIGN.md §4 C12",
         "non-empty keys (as the statement says)",
     ),
     "C13": (
         "exploration",
-        "prover -> lossy channel -> verifier simulation on binary branches and witnesses with seeded message faults (drop, duplicate, reorder, alter, truncate, substitute)",
+        "prover -> lossy channel -> verifier simulation on binary branches and witnesses with seeded message faults (drop, duplicate, reorder, alter, truncate, substitute); witnesses relayed from a store that holds exactly a witness",
         "Fault-free: branch sufficiency/exactness, prefix existence, node enumeration and witness sufficiency against RefBin; under channel faults if_branch_valid never confirms an answer the model does not give.",
         "DESIGN.md §4 C13",
         "keccak collision resistance",
     ),
     "C14": (
         "exploration",
-        "seeded simulated histories on SparseMerkleTree over SimDB with swarm-chosen key size/default and from_db reopen; map model + independent sparse Merkle root, path hashes, siblings",
+        "seeded simulated histories on SparseMerkleTree over SimDB with swarm-chosen key size/default, from_db reopen (also on a compacted copy of the store), roll-back by root_hash assignment, other clients' tree objects, and a store that loses node bodies; map model + independent sparse Merkle root, path hashes, siblings",
         "After every event get/exists equal the model, root equals an independently computed full-depth Merkle root, returned path hashes and branch() equal the reference, calc_root verifies, a from_db handle reads identically, clearing everything returns the initial root.",
         "DESIGN.md §4 C14",
-        "key sizes drawn from {1,2,3,4,8,20,32}",
+        "key sizes drawn from {1,2,3,4,8,20,32}; once the store has lost nodes calls may fail with KeyError but never answer wrongly, and an acknowledged write is readable at once",
     ),
     "C15": (
         "exploration",
-        "simulated update stream: tracker clients fed an ordered log at scheduler-chosen lag, late joiners, truncated messages (every truncation length enumerated for sampled entries) with retransmission",
+        "simulated update stream: tracker clients fed an ordered log at scheduler-chosen lag, late joiners, truncated messages (every truncation length enumerated for sampled entries) with retransmission; unrelated proof objects of other key sizes in the same process",
         "Each tracker, holding no reference to the tree, equals the reference tree as of its stream position after every delivery; too-short hash lists are rejected with ValidationError without effect, sufficient ones accepted; a tracker catches up in as many deliveries as it lags.",
         "DESIGN.md §4 C15",
         "in-order delivery (the statement requires it); trackers are created for readable keys only",
     ),
     "C17": (
         "fault_enumeration",
-        "deterministic simulation of ScratchDB over SimDB: exception (Exception/BaseException) at every position of each sampled batch, normal exit, a second party writing the wrapped db while the batch is open, do_deletes both ways; frozen-store monitor",
+        "deterministic simulation of ScratchDB over SimDB: exception (Exception/BaseException) at every position of each sampled batch, normal exit, a second party writing the wrapped db while the batch is open, do_deletes both ways and left out, writes issued while no batch is open, bulk batches; frozen-store monitor",
         "Each sampled batch of k operations is executed k+2 times as linear traces: normal exit and an exception after every position; no wrapped write while open, reads follow the buffer-over-wrapped model, exact commit image, untouched image on abort, empty buffer afterwards.",
         "DESIGN.md §4 C17",
         "crash positions enumerated per sampled batch; batches sampled",
